@@ -51,6 +51,12 @@ func runC18(c *Check, tier string) {
 	ruleQueueDrained(c, "R18i")
 	rulePipeErrorPropagated(c, "R18j")
 	ruleR18k(c)
+	// an interrupt reaches every blocking point — an evaluation that never looks at the context is one
+	ruleStarlarkThreadsBounded(c, "R18l")
+	ruleInterruptedWalkReportsIt(c, "R18m")
+	// an interrupt while outputs are written must not leave a record without its blobs
+	ruleUploadLoopComplete(c, "R18n")
+	rulePoolShutdownDoesNotBlock(c, "R18o")
 }
 
 // R18k: exec.CommandContext kills the child when the context is cancelled unless Cmd.Cancel is replaced. The
@@ -658,4 +664,128 @@ func rulePoolExits(c *Check) {
 		}
 	}
 	c.Require(okE, "R18c", "enqueue-has-exit", "a job is enqueued through a select with a time backstop, and the blocking fallback is guarded by the closed-pool test", "a job can be enqueued with a bare blocking send without checking that the pool was shut down: after an interrupt the caller blocks forever", pos)
+}
+
+// R18m: an interrupted walk says so. Node routines that are interrupted return without recording a completion;
+// if the walk then reports (completions, nil) the command sees neither an error nor a failed target and exits 0.
+// So the walk may return a nil error only on a path on which its context was found not done, or fail-fast was
+// triggered (then the failed completion is in the map).
+func ruleInterruptedWalkReportsIt(c *Check, rule string) {
+	c.Rule(rule, "every return of the walk with a nil error is reached through the branch on which ctx.Err() was nil or the branch on which the fail-fast flag was set", 1)
+	w := findWalker(c, rule)
+	if w == nil {
+		return
+	}
+	walk := w.Walk
+	ff := fk("dag.Walker", "failFastTriggered")
+	allowed := engine.CutEdgesWhere(func(a engine.Atom) bool {
+		switch a.Op {
+		case "nil":
+			for _, o := range engine.Origins(a.V) {
+				if call, _ := engine.CallOf(o); call != nil && strings.HasSuffix(engine.CalleeName(call), "context.Context).Err") {
+					return true
+				}
+			}
+		case "true":
+			return isLoadOfField(a.V, ff)
+		}
+		return false
+	})
+	// the places where a nil error is put into the result: a `return x, nil`, or (when results are spilled to
+	// cells because of a defer) the store of nil into the error cell
+	idx := engine.ErrResultIndex(walk.Signature)
+	isNil := func(v ssa.Value) bool { k, ok := v.(*ssa.Const); return ok && k.Value == nil }
+	var nilSites []ssa.Instruction
+	for _, r := range engine.Returns(walk) {
+		if r.Block() == walk.Recover || idx < 0 || idx >= len(r.Results) {
+			continue
+		}
+		v := r.Results[idx]
+		if isNil(v) {
+			nilSites = append(nilSites, r)
+			continue
+		}
+		if ld, ok := v.(*ssa.UnOp); ok && ld.Op == token.MUL {
+			sts, _ := engine.ReachingStores(ld)
+			for _, st := range sts {
+				if isNil(st.Val) {
+					nilSites = append(nilSites, st)
+				}
+			}
+		}
+	}
+	reach := false
+	var at ssa.Instruction
+	for _, site := range nilSites {
+		if r, _ := engine.PathExists(walk, nil, engine.IsInstr(site), engine.PathQuery{CutEdge: allowed, Shallow: true}); r {
+			reach, at = true, site
+		}
+	}
+	pos := c.P.Pos(walk.Pos())
+	if at != nil {
+		pos = c.P.InstrPos(at)
+	}
+	if len(nilSites) == 0 {
+		c.Unknown(rule, "interrupted-walk-reports-it/"+c.P.FuncName(walk), "the walk never returns a nil error", pos)
+		return
+	}
+	c.Require(!reach, rule, "interrupted-walk-reports-it/"+c.P.FuncName(walk), "a nil error is returned only when the context is not done or fail-fast recorded the failure", "the walk can return a nil error without having looked at its context: when an interrupt makes every routine return (without a completion) before the walk notices the cancellation, the command gets an empty completion map and no error — it prints 'completed successfully' and exits 0", pos)
+}
+
+// R18o: shutting the pool down never waits for work. On an interrupt the workers leave on ctx.Done() without
+// draining the queue, so anything the shutdown would wait for (a WaitGroup counting accepted jobs, a result
+// channel) may never arrive; Execute defers the shutdown, so a blocking shutdown keeps the interrupted process
+// alive — holding the workspace lock.
+func rulePoolShutdownDoesNotBlock(c *Check, rule string) {
+	c.Rule(rule, "the function that closes the pool's job channel, and everything it calls inside the worker package, contains no WaitGroup.Wait and no channel receive outside a select that has a default or a context arm", 1)
+	jobCh := fk("worker.TaskWorkerPool", "jobCh")
+	var shut *ssa.Function
+	for _, fn := range c.P.Funcs {
+		if !engine.InPackage(fn, "worker") {
+			continue
+		}
+		for _, s := range engine.SitesIn(fn) {
+			if b, ok := s.Common().Value.(*ssa.Builtin); ok && b.Name() == "close" && len(s.Common().Args) == 1 && isLoadOfField(s.Common().Args[0], jobCh) {
+				shut = engine.TopFunc(fn)
+			}
+		}
+	}
+	if shut == nil {
+		c.Unknown(rule, "shutdown-does-not-block", "anchor-unresolved: no function of internal/worker closes the job channel", "-")
+		return
+	}
+	reach := c.G.ReachableFuncs([]*ssa.Function{shut}, func(f *ssa.Function) bool { return !engine.InPackage(f, "worker") })
+	bad := ""
+	for f := range reach {
+		if !engine.InPackage(f, "worker") {
+			continue
+		}
+		for _, b := range f.Blocks {
+			for _, in := range b.Instrs {
+				switch x := in.(type) {
+				case *ssa.Call:
+					if engine.CalleeName(x) == "(*sync.WaitGroup).Wait" {
+						bad = "it waits for a WaitGroup (" + c.P.InstrPos(x) + ")"
+					}
+				case *ssa.UnOp:
+					if x.Op == token.ARROW {
+						bad = "it receives from a channel without an alternative (" + c.P.InstrPos(x) + ")"
+					}
+				case *ssa.Select:
+					if x.Blocking {
+						hasCtx := false
+						for _, st := range x.States {
+							if call, _ := engine.CallOf(st.Chan); call != nil && strings.HasSuffix(engine.CalleeName(call), "context.Context).Done") {
+								hasCtx = true
+							}
+						}
+						if !hasCtx {
+							bad = "it blocks in a select without a context arm (" + c.P.InstrPos(x) + ")"
+						}
+					}
+				}
+			}
+		}
+	}
+	c.Require(bad == "", rule, "shutdown-does-not-block/"+c.P.FuncName(shut), "closing the pool only closes the job channel", "the pool's shutdown can block: "+bad+". After an interrupt the workers have left without draining the queue, so a job that was accepted but never started is never accounted for: the deferred shutdown does not return, grog stays alive after Ctrl-C and keeps the workspace lock", c.P.Pos(shut.Pos()))
 }
